@@ -6,7 +6,8 @@
           start of the next promised trip on (book invariant of C09: each clearance is no later than
           the next trip's start; Cleared() refreshes the kept clearance from the book);
         - a new proposal never drops a promise whose clearance date has not passed (the repaired room
-          rule), so that entry stays in the book as long as it matters;
+          rule), and in the new book its clearance is again no later than the start of every later
+          promised trip, the new one included;
         - once it has left the book the stored clearance stands, and it has passed;
         - the return leg is checked in mid-trip, which is never refused;
         (the promise is recorded as kept when the promised trip is flown: C08 theorems);
@@ -32,6 +33,25 @@ Theorem C20_next_promised_trip_not_refused : forall (N : NumOps) mx (t : travell
   ~ grounded t now.
 Proof. exact @next_promised_trip_not_grounded. Qed.
 Print Assumptions C20_next_promised_trip_not_refused.
+
+Theorem C20_any_later_promised_trip_not_refused : forall (N : NumOps) mx (t : traveller N) k i now,
+  Inv mx (t_book t) -> (k < MaxPromises)%nat -> (i < k)%nat ->
+  p_ts (t_kept t) = p_ts (getp (t_book t) k) -> p_te (t_kept t) = p_te (getp (t_book t) k) ->
+  keqb N (p_dist (getp (t_book t) k)) (p_dist (t_kept t)) = true ->
+  p_ts (t_kept t) <> 0 -> p_clear (t_kept t) <> 0 -> 0 < p_clear (getp (t_book t) k) ->
+  p_ts (getp (t_book t) i) <= now ->
+  ~ grounded t now.
+Proof. exact @later_promised_trip_not_grounded. Qed.
+Print Assumptions C20_any_later_promised_trip_not_refused.
+
+Theorem C20_plan_keeps_pending_promise_cleared_in_time :
+  forall (N : NumOps) mx (b : book N) ts te d tr now (pr : predictor N) pp k,
+  1 <= mx -> 0 <= now -> te < tmax -> Inv mx b -> propose b ts te d tr now pr mx = inl pp ->
+  (k < MaxPromises)%nat -> p_ts (getp b k) <> 0 -> now <= p_clear (getp b k) ->
+  exists k', (k' < MaxPromises)%nat /\ core (getp (pp_entries pp) k') = core (getp b k) /\
+    forall i, (i < k')%nat -> p_clear (getp (pp_entries pp) k') <= p_ts (getp (pp_entries pp) i).
+Proof. exact @plan_keeps_pending_promise_cleared_in_time. Qed.
+Print Assumptions C20_plan_keeps_pending_promise_cleared_in_time.
 
 Theorem C20_refused_exactly_when_grounded : forall (N : NumOps) (t : traveller N) f now taxi debit,
   submit_flight t f now taxi debit = inr EGrounded <-> grounded t now.
